@@ -191,14 +191,14 @@ ALL.update(join_late=join_late, prefix_topics=prefix_topics)
 def tee_rejoin_multi(maxseq=4, **kw):
     """tee-rejoin whose branch A carries a topic set that varies per id (main+b / main); branch B skips ids"""
     return Topo('TeeRejoinMulti', {
-        'S': dict(nout=1, beh=beh('origin', tseq=[['main', 'b'], ['main', 'b'], ['main']])),
+        'S': dict(nout=1, beh=beh('origin', tseq=[['b', 'main'], ['b', 'main'], ['main']])),
         'A': dict(srcs=[src('S')], nout=1),
-        'B': dict(srcs=[src('S', topics=[('main', 'main')])], nout=1, beh=beh('relay', skip=(1, 3))),
+        'B': dict(srcs=[src('S', topics=[('main', 'main')])], nout=1, beh=beh('relay', skip=(1, 4))),
         'K': dict(srcs=[src('A'), src('B', topics=[('main', 'x')])]),
-    }, maxseq=maxseq, **kw)
+    }, maxseq=maxseq, topic_order=('b', 'main', 'c', '_filter'), **kw)   # the varying topic 'b' is published first
 
 
-def tee_rejoin_relay(maxseq=3, skipA=(0,), slowB=True, **kw):
+def tee_rejoin_relay(maxseq=4, skipA=(2,), slowB=True, **kw):
     """the rejoin K is a relay (it has outputs and a consumer Z): recv() is called with the sender's state"""
     return Topo('TeeRejoinRelay', {
         'S': dict(nout=1, beh=beh('origin', tseq=[['main']])),
@@ -230,3 +230,14 @@ def tee_rejoin_absent(maxseq=5, **kw):
 
 
 ALL.update(tee_rejoin_multi=tee_rejoin_multi, tee_rejoin_relay=tee_rejoin_relay, tee_names=tee_names, tee_rejoin_absent=tee_rejoin_absent)
+
+
+def balance2_multi(maxseq=4, **kw):
+    """balanced split / rejoin with two topics per frame (the rejoin must keep the sibling branch out while a frame is half read)"""
+    t = balance2(maxseq=maxseq, **kw)
+    t.filters['S']['beh']['tseq'] = [['main', 'b']]
+    t.name = 'Balance2Multi'
+    return t
+
+
+ALL.update(balance2_multi=balance2_multi)
